@@ -163,9 +163,6 @@ pub assume_specification[u32::next_power_of_two](x: u32) -> (r: u32)
 //@}
 //@fn build_double_array
 //@rules R9 R13b R7 R5 R18 R19 R20
-//@pre{
-#[verifier::exec_allows_no_decreases_clause]
-//@}
 //@ret r
 //@head{
     requires old(self).states@.len() == 0, old(self).num_free_blocks >= 1, nfa_tree(*nfa),
@@ -221,7 +218,10 @@ pub assume_specification[u32::next_power_of_two](x: u32) -> (r: u32)
         // stage B
         cwb(*nfa, self.states@, tb, state_id_map@, inv, owner, done, -1, 0, Seq::empty(), 0), cwb_used(inv, helper),
         stack@.no_duplicates(), forall|k: int| 0 <= k < stack@.len() ==> !done.contains(#[trigger] stack@[k] as int),
+        // termination: every iteration finishes one more NFA state
+        done.subset_of(vstd::set_lib::set_int_range(0, n)), done.len() <= n,
     ensures stack@.len() == 0,
+    decreases n - done.len(),
 //@}
 //@before 1 assert!(state_id != DEAD_STATE_ID);{
     let ghost sid = state_id as int;
@@ -244,6 +244,7 @@ pub assume_specification[u32::next_power_of_two](x: u32) -> (r: u32)
 //@before 1 continue;{
     proof {
         lemma_cwb_leaf(*nfa, self.states@, tb, state_id_map@, inv, owner, done, sid);
+        lemma_done_grows(done, sid, n);
         done = done.insert(sid);
         assert(forall|c: char| !edges.contains_key(c)) by { assert(edges.dom().len() == 0); assert(edges.dom() =~= Set::<char>::empty()); }
         gstack = stack@;
@@ -411,6 +412,7 @@ pub assume_specification[u32::next_power_of_two](x: u32) -> (r: u32)
             let i = choose|i: int| 0 <= i < s1.len() && pair_of(*nfa, sid, tb, label, #[trigger] s1[i]);
             assert(s1[i].1 == edges[label]);
         }
+        lemma_done_grows(done, sid, n);
         done = done.insert(sid);
         gstack = stack@;
     }
